@@ -42,6 +42,7 @@ impl Conn {
     pub fn new(stream: TcpStream) -> Conn {
         stream.set_nonblocking(true).ok();
         stream.set_nodelay(true).ok();
+        crate::interpose::wide_socket_buffers(stream.as_raw_fd());
         let local = stream.local_addr().ok();
         Conn { stream: Some(stream), rx: vec![], eof: false, reset: false, tx: vec![], sent: 0, first_rx_ns: None, last_rx_ns: None, eof_ns: None, local, tls: None, raw_tx: vec![], tls_error: None, tls_peer_cert: None, tls_alpn: None, sent_log: vec![] }
     }
@@ -269,6 +270,8 @@ pub enum Step {
     /// DATA for the whole of `bytes`, in frames of at most `frame_size`, sent as
     /// far as the peer's windows allow (waits for WINDOW_UPDATE) unless `ignore_window`
     H2Data { stream: u32, bytes: Vec<u8>, end_stream: bool, frame_size: usize, ignore_window: bool },
+    /// from now on `H2Data` pads every DATA frame with this many bytes (None: no padding)
+    H2PadData(Option<u8>),
     /// arbitrary bytes on the HTTP/2 connection (malformed frames, floods)
     H2Raw(Vec<u8>),
     /// WINDOW_UPDATE that really extends what we accept
@@ -391,6 +394,19 @@ fn h2_serve(conn: &mut Conn, h2: &mut super::h2::Endpoint, answered: &mut std::c
             continue;
         } else if let Some(n) = arg("/close-mid/") {
             partial(h2, conn, n);
+            conn.pump_write();
+            conn.close();
+            return true;
+        } else if let Some(n) = arg("/close-after/") {
+            // a complete n-byte answer (n below one window), then the connection is closed in the same turn
+            let body = super::h1::coded_body((n % 251) as u8, n);
+            let len = body.len().to_string();
+            let hs = h2.encode_headers(id, &[(":status", "200"), ("content-length", &len), ("x-stream", &sid)], body.is_empty(), None);
+            conn.tx.extend_from_slice(&hs);
+            let max = h2.peer(super::h2::S_MAX_FRAME_SIZE, 16384) as usize;
+            if !body.is_empty() {
+                conn.tx.extend_from_slice(&h2.encode_data(id, &body, true, max));
+            }
             conn.pump_write();
             conn.close();
             return true;
@@ -624,18 +640,29 @@ impl Peer {
                         continue;
                     }
                     let peer_max = h2.peer(super::h2::S_MAX_FRAME_SIZE, 16384) as usize;
+                    // padding is flow-controlled: the pad-length octet and the padding count against the windows
+                    let overhead = h2.pad_data.map(|p| 1 + p as usize).unwrap_or(0);
                     loop {
                         let left = bytes.len() - self.h2_data_off;
                         let mut n = left.min(frame_size.max(1));
                         if !ignore_window {
-                            n = n.min(h2.sendable(stream)).min(peer_max);
+                            n = n.min(h2.sendable(stream).saturating_sub(overhead)).min(peer_max.saturating_sub(overhead));
                         }
                         if n == 0 && left > 0 {
                             break;
                         }
                         let last = self.h2_data_off + n == bytes.len();
-                        self.conn.tx.extend_from_slice(&super::h2::data(stream, &bytes[self.h2_data_off..self.h2_data_off + n], end_stream && last));
-                        h2.consume_send_window(stream, n);
+                        let chunk = &bytes[self.h2_data_off..self.h2_data_off + n];
+                        match h2.pad_data {
+                            None => self.conn.tx.extend_from_slice(&super::h2::data(stream, chunk, end_stream && last)),
+                            Some(pad) => {
+                                let mut p = vec![pad];
+                                p.extend_from_slice(chunk);
+                                p.extend(std::iter::repeat_n(0u8, pad as usize));
+                                self.conn.tx.extend_from_slice(&super::h2::frame(super::h2::DATA, super::h2::F_PADDED | if end_stream && last { super::h2::F_END_STREAM } else { 0 }, stream, &p));
+                            }
+                        }
+                        h2.consume_send_window(stream, n + overhead);
                         self.h2_data_off += n;
                         progressed = true;
                         if last {
@@ -649,6 +676,13 @@ impl Peer {
                     } else {
                         break;
                     }
+                }
+                Step::H2PadData(pad) => {
+                    if let Some(h2) = self.h2.as_mut() {
+                        h2.pad_data = pad;
+                    }
+                    self.pc += 1;
+                    progressed = true;
                 }
                 Step::H2Raw(bytes) => {
                     self.conn.tx.extend_from_slice(&bytes);
